@@ -29,6 +29,9 @@ TMPL = {
          '<comp><view slot:item slot:index slot:first slot:last class="{{{{first ? hh : ii}}}}">{{{{index}}}}: {{{{item.n}}}} {{{{last ? jj : kk}}}}</view>'
          '<text slot:alpha slot:beta slot:gamma="g2">{{{{alpha}}}}{{{{beta}}}}{{{{g2}}}}</text></comp>',
 }
+# a file that reads no data field at all (content x includes the file at path c: whether an includer keeps its binding
+# map must not depend on whether - or when - the included file is in the group)
+TMPL["w"] = '<view class="footer">static footer</view><v id="i{name}" hidden/>'
 TMPL["x2"] = TMPL["x"].replace("exports.k = 1;", "exports.k = 2;")     # content x after set_inline_script_content
 # ("d" is another spelling of p/b: the group keys its files by the path string it is given, so these are two files)
 PATHS = {"a": "p/a", "b": "p/b", "c": "q/c", "d": "p/./b"}
@@ -75,8 +78,8 @@ def pure(hist, final):
     """histories whose artefacts are compared with every other history of the same final maps: those in which the group
     never held a script that the final maps no longer hold (the group may legitimately keep the script runtime once a
     file with scripts has been seen, so such a history is only compared with itself across processes)"""
-    seen = any((h[0] == "add_tmpl" and h[2] != "z") or h[0] == "add_script" for h in hist)
-    now = any(c != "z" for _, c in final)
+    seen = any((h[0] == "add_tmpl" and h[2] not in ("z", "w")) or h[0] == "add_script" for h in hist)
+    now = any(c not in ("z", "w") for _, c in final)
     return seen == now
 
 
@@ -87,7 +90,7 @@ def digest(r):
 
 def run(tier, seed, replay):
     ck = vlib.Check("C20", tier, seed)
-    ck.rule = ("histories = every behaviour of spec/MCGroup.tla (3 paths, 3 contents - inline script module, external script, no script -, <= 4-5 operations incl. remove and "
+    ck.rule = ("histories = every behaviour of spec/MCGroup.tla (4 paths, 4 contents - inline script module + include, external script, no script, no data at all -, <= 4-5 operations incl. remove and "
                "import-group), each replayed in N fresh processes; per final map - over the histories that add each file once, i.e. insertion "
                "orders and import-group splits; histories with replacement / removal are compared with themselves across processes - all artefacts (per-template objects, "
                "bundle, wx bundle, runtime, globals, scripts) must hash equal; stylesheets = repository inputs x option sets "
@@ -111,7 +114,10 @@ def run(tier, seed, replay):
         ck.add_tlc(res)
         hists = res.cases
         if tier == "quick":
-            hists = rnd.sample(hists, min(len(hists), 1500))
+            # every history of one or two operations (each pair of files in both orders), a seeded sample of the longer ones
+            short = [h for h in hists if len(h["hist"]) <= 2]
+            rest = [h for h in hists if len(h["hist"]) > 2]
+            hists = short + rnd.sample(rest, min(len(rest), 1500))
         else:
             ck.notes.append("%d of %d histories replayed (seeded 1/12 sample of TLC's exhaustive enumeration)" % (len(res.cases), res.ncases))
     nproc = 4 if tier == "quick" else 6
